@@ -306,7 +306,7 @@ func cmdProp(args []string) {
 		}
 	}
 	// bounded stand-ins: functions outside the verifier's reach get a bounded in-package check (never counted as proved)
-	bounded := e.runBounded(*id, *repo, *verif)
+	bounded := e.runBounded(*id, *repo, *verif, *tier)
 	var boundedDesc []string
 	for _, b := range bounded {
 		boundedDesc = append(boundedDesc, fmt.Sprintf("%s: %s [bounded check %s: %s]", b.Func, b.Bound, b.File, b.Status))
@@ -565,7 +565,7 @@ type boundedRun struct {
 
 // runBounded executes /verif/bounded/<id>/*.go (in-package tests injected with -overlay). Headers:
 //   // bounded-pkg: memmetrics      // bounded-func: <function standing in for>      // bounded-bound: <stated bound>
-func (e *Engine) runBounded(id, repo, verif string) []boundedRun {
+func (e *Engine) runBounded(id, repo, verif, tier string) []boundedRun {
 	files, _ := filepath.Glob(filepath.Join(verif, "bounded", id, "*.go"))
 	var out []boundedRun
 	for _, f := range files {
@@ -591,10 +591,14 @@ func (e *Engine) runBounded(id, repo, verif string) []boundedRun {
 		os.WriteFile(ovf, ovb, 0o644)
 		cmd := exec.Command("go", "test", "-overlay", ovf, "-vet=off", "-count=1", "-timeout", "120s", "-run", "TestVerifBounded", "./"+pkg)
 		cmd.Dir = repo
-		cmd.Env = append(os.Environ(), "GOFLAGS=-mod=mod", "GOPROXY=off", "GOSUMDB=off", "GOTOOLCHAIN=local")
+		cmd.Env = append(os.Environ(), "GOFLAGS=-mod=mod", "GOPROXY=off", "GOSUMDB=off", "GOTOOLCHAIN=local", "VERIF_TIER="+tier)
 		o, err := cmd.CombinedOutput()
 		os.RemoveAll(scratch)
-		b := boundedRun{Func: get("bounded-func"), Bound: get("bounded-bound"), File: strings.TrimPrefix(f, verif+"/"), Output: tail(string(o), 3000)}
+		bound := get("bounded-bound")
+		if tier == "thorough" && get("bounded-bound-thorough") != "" {
+			bound = get("bounded-bound-thorough")
+		}
+		b := boundedRun{Func: get("bounded-func"), Bound: bound, File: strings.TrimPrefix(f, verif+"/"), Output: tail(string(o), 3000)}
 		if err != nil {
 			b.Failed = true
 			b.Status = "FAILED"
